@@ -21,6 +21,7 @@
 package engine
 
 import (
+	"fmt"
 	"go/ast"
 	"go/token"
 	"path"
@@ -351,7 +352,9 @@ func (r ImportsReplacer) Cleanup(d data.Data, f *ast.File, newNames []string) er
 		// If this import was replaced by an added import, kill it.
 		_, replaced := taken[pkgName]
 		if replaced || !usesNameAsTopLevel(f, pkgName) {
-			astutil.DeleteNamedImport(r.Fset, f, importName, imp)
+			if err := deleteNamedImport(r.Fset, f, importName, imp); err != nil {
+				return err
+			}
 		}
 	}
 
@@ -376,6 +379,21 @@ func (r ImportsReplacer) Cleanup(d data.Data, f *ast.File, newNames []string) er
 		f.Imports = nil
 	}
 
+	return nil
+}
+
+// deleteNamedImport is astutil.DeleteNamedImport, except that a panic in it
+// comes back as an error. astutil closes the gap a deleted import leaves by
+// merging lines, and finds them through positions adjusted by //line
+// directives: with such a directive inside the import block it keeps merging
+// until the file has no line left and token.File.MergeLine panics.
+func deleteNamedImport(fset *token.FileSet, f *ast.File, name, path string) (err error) {
+	defer func() {
+		if r := recover(); r != nil {
+			err = fmt.Errorf("cannot delete import %q: %v", path, r)
+		}
+	}()
+	astutil.DeleteNamedImport(fset, f, name, path)
 	return nil
 }
 
